@@ -1,9 +1,197 @@
 package main
 
+// JSON object model for map[string]any documents (C18): a body blob b that is
+// a JSON object is observed over a finite property-name universe P (closed
+// world, stated bound) to depth 2:
+//   oisObj(b)        b is a JSON object
+//   ohas(b,p)        object b has member p
+//   oget(b,p)        canonical JSON text of member p
+// json.Marshal(map[string]any) = omk_n(h1,g1,...,hn,gn) with the observer
+// axioms instantiated over P.
+
+import (
+	"fmt"
+	"go/types"
+)
+
+func oisObj(x *Term) *Term  { return mkUF("oisObj", SBool, toBlob(x)) }
+func ohas(x, p *Term) *Term { return mkUF("ohas", SBool, toBlob(x), p) }
+func oget(x, p *Term) *Term { return mkUF("oget", SBlob, toBlob(x), p) }
+
+func (e *Exec) props() []*Term {
+	p, _ := e.world["puniv"].([]*Term)
+	return p
+}
+
+const objDepth = 2
+
+// objOf builds the Go map for object text b.
+func (e *Exec) objOf(b *Term, mapType types.Type, depth int) *MapV {
+	m := e.newMap()
+	maxDepth, _ := e.world["objDepth"].(int)
+	for pi, p := range e.props() {
+		if !e.branch(ohas(b, p)) {
+			continue
+		}
+		v := oget(b, p)
+		e.assume(jsonValid(v))
+		e.assume(tEq(jcanon(v), v))
+		e.assume(tNe(v, mkStr("")))
+		var val Val
+		switch {
+		case e.branch(tEq(v, nullBlob)):
+			val = nilIface
+		case depth < maxDepth && pi == 0 && e.branch(oisObj(v)):
+			val = &IfaceV{T: mapType, V: e.objOf(v, mapType, depth+1)}
+		default:
+			// bound: only the first universe property may hold a nested object, to the stated depth
+			if !e.branch(tNot(oisObj(v))) {
+				panic(pathEnd{kind: "infeasible"})
+			}
+			val = e.jval(v)
+		}
+		m.entries = append(m.entries, &mapEntry{k: p, v: val})
+	}
+	return m
+}
+
 func (e *Exec) unmarshalObject(data *BytesV, dst *PtrV) Val {
-	panic(pathEnd{kind: "unsupported", msg: "json.Unmarshal into map[string]any (object model not built)"})
+	if e.branch(tEq(data.S, mkStr(""))) {
+		return e.newError("json", "unexpected end of JSON input")
+	}
+	if !e.branch(jsonValid(data.S)) {
+		return e.newError("json", "invalid JSON")
+	}
+	if e.branch(tEq(data.S, nullBlob)) {
+		return nilIface
+	}
+	if !e.branch(oisObj(data.S)) {
+		return e.newError("json", "cannot unmarshal non-object into map[string]interface{}")
+	}
+	mt, _ := e.world["objMapType"].(types.Type)
+	dst.store(e.objOf(toBlob(data.S), mt, 1))
+	return nilIface
+}
+
+// marshalAny: canonical JSON text of a parsed value.
+func (e *Exec) marshalAny(v Val) *Term {
+	iv, _ := v.(*IfaceV)
+	if iv == nil || iv.T == nil {
+		return nullBlob
+	}
+	if iv.T == jvalType {
+		return iv.V.(*NativeV).Data.(*Term)
+	}
+	if m, ok := iv.V.(*MapV); ok {
+		return e.marshalObject(m).S
+	}
+	panic(pathEnd{kind: "unsupported", msg: "json.Marshal of " + iv.T.String() + " inside an object"})
 }
 
 func (e *Exec) marshalObject(v Val) *BytesV {
-	panic(pathEnd{kind: "unsupported", msg: "json.Marshal of map[string]any (object model not built)"})
+	m := v.(*MapV)
+	if m.isNil {
+		return bytesOf(nullBlob)
+	}
+	P := e.props()
+	var args, hs, gs []*Term
+	for _, p := range P {
+		h := tFalse
+		g := toBlob(mkStr(""))
+		for _, en := range m.entries {
+			is := tEq(en.k.(*Term), p)
+			h = tOr(h, is)
+			g = tIte(is, e.marshalAny(en.v), g)
+		}
+		hs, gs = append(hs, h), append(gs, g)
+		args = append(args, h, g)
+	}
+	for _, en := range m.entries {
+		in := tFalse
+		for _, p := range P {
+			in = tOr(in, tEq(en.k.(*Term), p))
+		}
+		if !e.branch(in) {
+			panic(pathEnd{kind: "bound", msg: "JSON property name outside the universe"})
+		}
+	}
+	r := mkUF(fmt.Sprintf("omk%d", len(P)), SBlob, args...)
+	key := "omk:" + r.String()
+	if !e.axiomsDone[key] {
+		e.axiomsDone[key] = true
+		for i, p := range P {
+			e.assume(tEq(ohas(r, p), hs[i]))
+			e.assume(tImplies(hs[i], tEq(oget(r, p), gs[i])))
+		}
+		e.assume(jsonValid(r))
+		e.assume(oisObj(r))
+		e.assume(tEq(jcanon(r), r))
+		e.assume(tNe(r, nullBlob))
+		e.assume(tIntCmp(">=", tStrLen(r), mkInt(2)))
+	}
+	return bytesOf(r)
+}
+
+func init() {
+	p := rosmarPath + "."
+	stubs[p+"verifPropUniverse"] = func(e *Exec, th *Thread, c *CallCtx, a []Val) StubRes {
+		n := e.concreteInt(a[0], "universe size")
+		var P []*Term
+		var vals []Val
+		for i := 0; i < n; i++ {
+			u := e.input("str", fmt.Sprintf("pu%d", i), SStr)
+			// property names are plain identifiers: no path syntax inside
+			for _, ch := range []string{".", "[", "]", "\\", "`"} {
+				e.assume(tNot(tStrContains(u, mkStr(ch))))
+			}
+			e.assume(tNe(u, mkStr("")))
+			P = append(P, u)
+			vals = append(vals, u)
+		}
+		for i := 0; i < n; i++ {
+			for j := i + 1; j < n; j++ {
+				e.assume(tNe(P[i], P[j]))
+			}
+		}
+		e.world["puniv"] = P
+		e.world["objDepth"] = e.concreteInt(a[2], "object depth")
+		// the Go type map[string]any, taken from the intrinsic's declared helper
+		e.world["objMapType"] = c.fn.Signature.Params().At(1).Type()
+		return ret(e.newSlice(vals))
+	}
+	stubs[p+"verifObjIs"] = func(e *Exec, th *Thread, c *CallCtx, a []Val) StubRes {
+		x := a[0].(*BytesV)
+		return ret(tAnd(tNot(x.Nil), tNe(x.S, mkStr("")), jsonValid(x.S), tNe(x.S, nullBlob), oisObj(x.S)))
+	}
+	stubs[p+"verifObjHas"] = func(e *Exec, th *Thread, c *CallCtx, a []Val) StubRes {
+		x := a[0].(*BytesV)
+		return ret(tAnd(tNot(x.Nil), ohas(x.S, a[1].(*Term))))
+	}
+	stubs[p+"verifObjGet"] = func(e *Exec, th *Thread, c *CallCtx, a []Val) StubRes {
+		x := a[0].(*BytesV)
+		h := tAnd(tNot(x.Nil), ohas(x.S, a[1].(*Term)))
+		return ret(&BytesV{Nil: tNot(h), S: tIte(h, oget(x.S, a[1].(*Term)), toBlob(mkStr("")))})
+	}
+	// verifObjWellFormed(x): members hold canonical JSON, nested objects likewise to depth 2
+	stubs[p+"verifObjWellFormed"] = func(e *Exec, th *Thread, c *CallCtx, a []Val) StubRes {
+		x := a[0].(*BytesV)
+		var cs []*Term
+		var rec func(b *Term, depth int)
+		rec = func(b *Term, depth int) {
+			for _, p := range e.props() {
+				v := oget(b, p)
+				h := ohas(b, p)
+				cs = append(cs, tImplies(h, tAnd(jsonValid(v), tEq(jcanon(v), v), tNe(v, mkStr("")))))
+				if depth < objDepth {
+					// nested object members
+					for _, q := range e.props() {
+						w := oget(v, q)
+						cs = append(cs, tImplies(tAnd(h, oisObj(v), ohas(v, q)), tAnd(jsonValid(w), tEq(jcanon(w), w), tNe(w, mkStr("")), tNot(oisObj(w)))))
+					}
+				}
+			}
+		}
+		rec(toBlob(x.S), 1)
+		return ret(tAnd(cs...))
+	}
 }
